@@ -453,22 +453,26 @@ def r7_buffer(prog, rep: Report, pf: PoolFacts):
 def r8_idiom(prog, rep: Report, pf: PoolFacts):
     rep.rule("C01.R8", "accumulate-and-yield idiom (sibling instances): every input element appended exactly once; a full "
              "accumulator is yielded and then replaced by a fresh list; a non-empty remainder is yielded after the loop", floor=4)
-    ch = pf.feeder_run.nested.get("chunking")
-    if ch is None:
-        gens = [g for g in pf.feeder_run.nested.values() if g.is_generator]
-        ch = gens[0] if gens else None
+    from .poolfam import chunk_generators
+    gens = chunk_generators(prog, pf.feeder_run.cls, pf.feeder_run)
+    ch = gens[0] if gens else None
     if ch is None:
         rep.unrec("C01.R8", pf.feeder_run, "chunking", "no chunking generator nested in the feeder's run()")
     else:
-        chunking_idiom(prog, rep, "C01.R8", ch, "chunking", data_expr=ch.params[0] if ch.params else None)
+        chunking_idiom(prog, rep, "C01.R8", ch, "chunking", data_expr=_data_param(ch))
     fm = prog.maybe_cls("FunctorMap", "windpyutils.parallel.pools")
     if fm is not None and "__call__" in fm.methods:
-        gens = [g for g in fm.methods["__call__"].nested.values() if g.is_generator]
+        gens = chunk_generators(prog, fm, fm.methods["__call__"])
         if gens:
-            chunking_idiom(prog, rep, "C01.R8", gens[0], "chunking", data_expr=gens[0].params[0] if gens[0].params else None)
+            chunking_idiom(prog, rep, "C01.R8", gens[0], "chunking", data_expr=_data_param(gens[0]))
     bi = prog.maybe_cls("BatcherIter", "windpyutils.generic")
     if bi is not None and "__iter__" in bi.methods:
         batcher_idiom(prog, rep, "C01.R8", bi)
+
+
+def _data_param(g: Func) -> Optional[str]:
+    ps = [x for x in g.params if x != g.self_name]
+    return ps[0] if ps else None
 
 
 def batcher_idiom(prog, rep: Report, rule: str, bi: Cls):
